@@ -356,6 +356,19 @@ func RunEngine(t *testing.T, e Engine, seed uint64, thorough bool, resultPath st
 	tracer, isTracer := e.(Tracer)
 
 	for i, c := range cases {
+		// a panic in a goroutine of the code under test kills the process: leave the case being executed behind,
+		// so that the caller can report (and shrink) the input that crashes the implementation
+		if resultPath != "" {
+			cur := map[string]any{"header": c.Header, "ops": c.Ops}
+			if isTracer {
+				cur = map[string]any{"header": c.Header, "ops": c.Ops, "scenario_header": c.Header, "scenario": c.Ops}
+			}
+
+			if b, err := json.Marshal(cur); err == nil {
+				_ = os.WriteFile(resultPath+".current", b, 0o644)
+			}
+		}
+
 		if isTracer {
 			sc := c
 			cases[i], impl[i] = tracer.Trace(t, sc)
